@@ -661,6 +661,30 @@ func (s *Sim) stepReload(t *model.Topo) error {
 	return err
 }
 
+// stepReloadRetry is the plugin's periodic loop calling updateConfigMap again after a reload that failed: the
+// administrator's ConfigMap still holds the new text. A fault-free call that returns without error means the ConfigMap's
+// content is the configuration in force from now on (whatever the call reports about having "updated" anything).
+func (s *Sim) stepReloadRetry(t *model.Topo) error {
+	text := model.ConfText(t.Pools)
+	s.W.SetConfigMap(text)
+	s.pendingReload = t
+	updated, err := s.W.Plugin.VerifReloadConfigMap()
+	s.pendingReload = nil
+	s.lastOpErr = err
+	if err == nil {
+		if text != s.W.ConfText {
+			s.adoptConfig(t)
+		}
+		if !updated {
+			s.Counts["reload_retry_reported_unchanged"]++
+		}
+	} else {
+		s.W.SetConfigMap(s.W.ConfText)
+	}
+	s.record("reload", fmt.Sprintf("retry after failure, %d pools", len(t.Pools)), errStr(err))
+	return err
+}
+
 // adoptConfig makes t the configuration in force in the harness's books.
 func (s *Sim) adoptConfig(t *model.Topo) {
 	oldIPs := s.Topo.AllIPs()
